@@ -112,6 +112,7 @@ type world struct {
 	snapSh []*shardT
 	snap   string
 	nt     map[string]bool
+	pad    []byte // ONE scratch pad reused by every GetBucket of the case, as the agent's sender does
 }
 
 func must(err error) {
@@ -318,8 +319,8 @@ func classify(err error) string {
 func (w *world) get(i int, id int64, tm uint32) {
 	s := w.sh[i]
 	w.h.Op("get %d %d %d", i, id, tm)
-	var scratch []byte
-	data, err := w.d.GetBucket(i, id, tm, &scratch)
+	padBefore := len(w.pad)
+	data, err := w.d.GetBucket(i, id, tm, &w.pad)
 	r := s.byID(id)
 	res := ""
 	if err != nil {
@@ -334,13 +335,16 @@ func (w *world) get(i int, id int64, tm uint32) {
 	} else {
 		res = "ok " + verifx.Hex(data)
 		w.h.Stat("get.ok", 1)
+		if r != nil && len(r.data) == 0 && padBefore > 0 {
+			w.h.Stat("get.empty-body-with-dirty-pad", 1)
+		}
 		switch {
 		case r == nil:
 			w.h.Viol("get-unknown-returned", "shard %d: GetBucket(%d,%d) returned data for an id never handed out", i, id, tm)
 		case r.erased:
 			w.h.Viol("get-erased-returned", "shard %d: GetBucket(%d,%d) returned an erased second", i, id, tm)
 		case !bytes.Equal(data, r.data):
-			w.h.Viol("get-wrong-bytes", "shard %d: GetBucket(%d,%d) returned %x, put was %x", i, id, tm, data, r.data)
+			w.h.Viol("returned-bytes-differ", "shard %d: GetBucket(%d,%d) returned %x, put was %x (scratch pad held %d bytes of the previous read)", i, id, tm, data, r.data, padBefore)
 		case r.time != tm && !s.damaged:
 			w.h.Viol("get-wrong-time", "shard %d: GetBucket(%d,%d) succeeded for a second put with time %d", i, id, tm, r.time)
 		}
